@@ -66,7 +66,7 @@ def run_property(pid: str, tier: str, seed: int, explain: bool = False) -> int:
     prop = props[pid]
     spec = PLAN[pid]
     try:
-        ctx = Ctx()
+        ctx = Ctx(deep=(tier == "thorough"))
         roots, scope = scope_of(ctx, prop)
         per_rule = []
         violations: List[Finding] = []
@@ -152,6 +152,10 @@ def run_property(pid: str, tier: str, seed: int, explain: bool = False) -> int:
                     "allocation site, ...) examined on the current tree; all are distinct constructs",
             "samples": samples[:12],
             "exhaustive": True,
+            "loop_unrolling": ("thorough: loops unrolled up to 3 times (6x path budget), single-unrolling rules "
+                               "get 2" if tier == "thorough" else "quick: loops unrolled up to 2 times, 1 when a "
+                               "function exceeds 1500 paths"),
+            "paths_enumerated": sum(len(v) for v in ctx._paths.values() if isinstance(v, list)),
             "rules": per_rule,
             "files_analysed": len(ctx.repo.modules),
             "functions_analysed": sum(len(m.functions) for m in ctx.repo.modules.values()),
